@@ -195,13 +195,41 @@ func c20(c *Ctx) {
 			strip = cc
 		}
 	}
-	if strip == nil {
+	var rest ssa.Value
+	if strip != nil {
+		rest = ssa.Value(strip)
+		if strip.Common().Signature().Results().Len() > 1 {
+			rest = extractOf(strip, 0)
+		}
+	} else {
+		// chunk[len(prefix):] behind strings.HasPrefix(chunk, prefix)
+		for _, b := range dec.Blocks {
+			for _, in := range b.Instrs {
+				sl, isSl := in.(*ssa.Slice)
+				if !isSl || sl.High != nil {
+					continue
+				}
+				lc, isCall := sl.Low.(*ssa.Call)
+				if !isCall || core.CalleeName(lc.Common()) != "builtin:len" || core.Strip(lc.Call.Args[0]) != decPrefix {
+					continue
+				}
+				chunk := core.Strip(sl.X)
+				g := core.Guard{Name: "HasPrefix(chunk, prefix)", Match: func(cond ssa.Value) (int, bool) {
+					hc, ok := cond.(*ssa.Call)
+					if ok && core.CalleeName(hc.Common()) == "strings.HasPrefix" && core.Strip(hc.Call.Args[0]) == chunk && core.Strip(hc.Call.Args[1]) == decPrefix {
+						return 0, true
+					}
+					return 0, false
+				}}
+				if res := core.CutReach(p, dec, g, sl.Block()); !res.Reachable && len(res.Instances) > 0 {
+					rest = sl
+				}
+			}
+		}
+	}
+	if rest == nil {
 		r.Bad("R-C20.1", "tls.CombineFromNextProtos prefix strip", p.Pos(dec.Pos()), "the decoder does not strip the prefix parameter from the entries")
 		return
-	}
-	rest := ssa.Value(strip)
-	if strip.Common().Signature().Results().Len() > 1 {
-		rest = extractOf(strip, 0)
 	}
 	// delimiter-based
 	var cut *ssa.Call
@@ -210,7 +238,40 @@ func c20(c *Ctx) {
 			cut = cc
 		}
 	}
-	if cut != nil {
+	// ... or rest[strings.Index(rest, sep)+len(sep):]
+	var idxCut *ssa.Slice
+	var idxCall *ssa.Call
+	if cut == nil {
+		for _, b := range dec.Blocks {
+			for _, in := range b.Instrs {
+				sl, isSl := in.(*ssa.Slice)
+				if !isSl || sl.High != nil || core.Strip(sl.X) != rest {
+					continue
+				}
+				if ic, k, ok := core.IndexPlusConst(sl.Low); ok && core.Strip(ic.Call.Args[0]) == rest {
+					if sep, isC := core.ConstString(ic.Call.Args[1]); isC && k == int64(len(sep)) {
+						idxCut, idxCall = sl, ic
+					}
+				}
+			}
+		}
+	}
+	if idxCut != nil {
+		sep, _ := core.ConstString(idxCall.Call.Args[1])
+		r.Check(sep == delim, "R-C20.1", "tls.CombineFromNextProtos header removal", p.Pos(idxCut.Pos()), fmt.Sprintf("cuts after the first %q, the delimiter the encoder writes after the index", delim), fmt.Sprintf("decoder cuts at %q but the encoder's delimiter is %q", sep, delim))
+		appended := false
+		for _, b := range dec.Blocks {
+			for _, in := range b.Instrs {
+				if bo, isBo := in.(*ssa.BinOp); isBo && bo.Op.String() == "+" && bo.Y == ssa.Value(idxCut) {
+					appended = true
+				}
+				if wc, isW := core.IsCallTo(in, "(*strings.Builder).WriteString"); isW && len(wc.Args) == 2 && core.Strip(wc.Args[1]) == ssa.Value(idxCut) {
+					appended = true
+				}
+			}
+		}
+		r.Check(appended, "R-C20.1", "tls.CombineFromNextProtos appended part", p.Pos(idxCut.Pos()), "appends the text after the delimiter", "the decoder does not append the text following the delimiter")
+	} else if cut != nil {
 		sep, isC := core.ConstString(cut.Call.Args[1])
 		r.Check(isC && sep == delim, "R-C20.1", "tls.CombineFromNextProtos header removal", p.Pos(cut.Pos()), fmt.Sprintf("cuts at the first %q, the delimiter the encoder writes after the index", delim), fmt.Sprintf("decoder cuts at %q but the encoder's delimiter is %q", sep, delim))
 		// appended part is what follows the delimiter, and 'found' is required
